@@ -24,6 +24,8 @@ mod range_queries;
 mod tree_structure;
 mod types;
 mod validation;
+#[cfg(kentbeck_bplustree3_verif)]
+mod verif;
 
 // Generic Arena removed - only CompactArena is used in the implementation
 pub use compact_arena::{CompactArena, CompactArenaStats};
